@@ -370,6 +370,13 @@ fn matrix_c06(args: &Args, agg: &mut Agg, prop: &str) -> (u64, u64) {
                 }
                 let total = cycle_steps(&pre);
                 for k in 0..=total {
+                  // settle: after the k single steps the marking is completed by finish_marking, so
+                  // that the act happens with the arena stopped exactly at Marked (fully marked,
+                  // not yet sweeping); only for a few k (what was marked incrementally differs)
+                  for settle in [false, true] {
+                    if settle && k > 3 {
+                        continue;
+                    }
                     for d in DRAINS {
                       for act_cb in [CbKind::Mutate, CbKind::MutateRoot] {
                         // stores into a non-root object made inside a root-mutating callback (the
@@ -384,7 +391,7 @@ fn matrix_c06(args: &Args, agg: &mut Agg, prop: &str) -> (u64, u64) {
                         if sample > 1 && !args.flag("only") && (if group_shard { idx.wrapping_mul(2654435761).wrapping_add(seed) } else { idx / nshards + seed }) % sample != 0 {
                             continue;
                         }
-                        let name = format!("{}|{:?}|L{}|k{}|{:?}|{:?}", path.name(), child, layout, k, d, act_cb);
+                        let name = format!("{}|{:?}|L{}|k{}{}|{:?}|{:?}", path.name(), child, layout, k, if settle { "+marked" } else { "" }, d, act_cb);
                         if let Some(only) = args.m.get("only") {
                             if &name != only {
                                 continue;
@@ -393,6 +400,9 @@ fn matrix_c06(args: &Args, agg: &mut Agg, prop: &str) -> (u64, u64) {
                         let mut ops = pre.clone();
                         for _ in 0..k {
                             ops.push(step());
+                        }
+                        if settle {
+                            ops.push(Op::Collect { a: 0, op: COp::FinishMarking, fault: 0 });
                         }
                         ops.extend(act(*path, child, act_cb));
                         ops.extend(drain(d, path.is_weak()));
@@ -417,6 +427,7 @@ fn matrix_c06(args: &Args, agg: &mut Agg, prop: &str) -> (u64, u64) {
                         }
                       }
                     }
+                  }
                 }
                 pre.clear();
             }
